@@ -284,8 +284,9 @@ func Run[C any](t *testing.T, id string, draw func(*rapid.T) C, run func(C, *Sta
 // A case that never returns (an endless loop in the code under test) or that allocates without
 // bound cannot report itself.  A monitor goroutine aborts the process with a recorded failure
 // (signature "hang" / "memory") and the current case as the replay, so that the driver reports a
-// violation instead of an inconclusive run.  VERIF_CASE_SECONDS (default 300, real time) and
-// VERIF_CASE_HEAP_MB (default 6144) set the limits.
+// violation instead of an inconclusive run.  VERIF_CASE_SECONDS (default 900, real time) sets the time limit;
+// the heap limit VERIF_CASE_HEAP_MB is off unless set (the heap also holds what the harness itself builds:
+// only units whose cases are small — the codecs — set it).
 
 type caseWatch struct {
 	mu     sync.Mutex
@@ -317,8 +318,8 @@ func (w *caseWatch) end() {
 }
 
 func (w *caseWatch) monitor(id string, st *Stats) {
-	limit := time.Duration(envInt("VERIF_CASE_SECONDS", 300)) * time.Second
-	heap := uint64(envInt("VERIF_CASE_HEAP_MB", 6144)) << 20
+	limit := time.Duration(envInt("VERIF_CASE_SECONDS", 900)) * time.Second
+	heap := uint64(envInt("VERIF_CASE_HEAP_MB", 1<<30)) << 20 // (effectively off)
 	var ms runtime.MemStats
 	for n := 0; ; n++ {
 		time.Sleep(100 * time.Millisecond)
